@@ -1,5 +1,10 @@
 import PromProofs.QuantileList
 import PromProofs.QuantileFraction
+import PromProofs.QuantileSort
+import PromProofs.QuantileNativeMono
+import PromProofs.QuantileFractionMono
+import PromProofs.QuantileFractionExt
+import PromProofs.QuantileAgree
 /-
   C32 — Histogram query functions agree with the histograms they describe.
 
@@ -58,13 +63,44 @@ theorem bucketQuantile_mono_partial (almost : XR → XR → Bool) (cs : List (Bu
     have hobs' := Rat.le_of_lt hobs
     exact valQ_mono N (Rat.mul_nonneg h0 hobs') (Rat.mul_le_mul_of_nonneg_right h12 hobs') S1 S2
 
-/-- The whole-pipeline statement (sort + coalesce included), not yet proved in this form. -/
+def noTol : XR → XR → Bool := fun _ _ => false
+
+/-- The whole-pipeline statement (sort + coalesce included) as first written.  It is FALSE for the empty
+    bucket list only (`bucketQuantile_mono_full_empty_witness`: Go indexes `buckets[len(buckets)-1]` and
+    panics; both callers guard `len(mb.buckets) > 0`); with `buckets ≠ []` it is `bucketQuantile_mono`. -/
 def bucketQuantile_mono_full : Prop :=
   ∀ (almost : XR → XR → Bool) (buckets : List (Bucket XR)),
     NonnegC buckets → (∀ b ∈ buckets, b.ub = .pinf ∨ ∃ x, b.ub = .fin x) →
     ∀ q1 q2 : Rat, 0 ≤ q1 → q1 ≤ q2 → q2 ≤ 1 →
       ∃ r1 r2, bucketQuantileWith almost (.fin q1) buckets = .ok r1 ∧ bucketQuantileWith almost (.fin q2) buckets = .ok r2 ∧
         XR.leOrNaN r1.quantile r2.quantile
+
+/-- `BucketQuantile` with the sort and `coalesceBuckets` INCLUDED: for EVERY non-empty list of classic
+    buckets with finite counts ≥ 0 (in any order, with duplicate bounds, monotone or not) and bounds that are
+    numbers or +Inf, the call succeeds for all quantiles in [0,1] and the result never decreases with the
+    quantile.  No shape hypothesis is left: `sortCoalesce_spec` proves that the transcribed sort + coalesce
+    establish `UbShape`. -/
+theorem bucketQuantile_mono (almost : XR → XR → Bool) (buckets : List (Bucket XR)) (hne : buckets ≠ [])
+    (C : NonnegC buckets) (hub : ∀ b ∈ buckets, b.ub = .pinf ∨ ∃ x, b.ub = .fin x)
+    (q1 q2 : Rat) (h0 : 0 ≤ q1) (h12 : q1 ≤ q2) (h1 : q2 ≤ 1) :
+    ∃ r1 r2, bucketQuantileWith almost (.fin q1) buckets = .ok r1 ∧ bucketQuantileWith almost (.fin q2) buckets = .ok r2 ∧
+      XR.leOrNaN r1.quantile r2.quantile := by
+  obtain ⟨_, _, _, C', U⟩ := sortCoalesce_spec buckets hub C
+  have h1' : q1 ≤ 1 := by grind
+  have h0' : 0 ≤ q2 := by grind
+  rcases bucketQuantileWith_decomp almost buckets hne with hn | ht
+  · exact ⟨_, _, hn q1 h0 h1', hn q2 h0' h1, Or.inl rfl⟩
+  · exact ⟨_, _, ht q1 h0 h1', ht q2 h0' h1, bucketQuantile_mono_partial almost _ U C' q1 q2 h0 h12⟩
+
+/-- the literal `bucketQuantile_mono_full` fails exactly because of the empty list (Go: index out of range) -/
+theorem bucketQuantile_mono_full_empty_witness : ¬ bucketQuantile_mono_full := by
+  intro h
+  obtain ⟨r1, _, e, _⟩ := h noTol [] (by intro b hb; simp at hb) (by intro b hb; simp at hb) 0 0
+    (by decide) (by decide) (by decide)
+  have : (match bucketQuantileWith noTol (.fin 0) ([] : List (Bucket XR)) with | .error _ => true | .ok _ => false) = true := by
+    decide +kernel
+  rw [e] at this
+  cases this
 
 /-- The result lies within the bounds of the bucket holding the rank: either NaN for every `q`
     (fewer than 2 buckets / no observations), or for each `q ≥ 0` there is the bucket `k` selected by
@@ -109,7 +145,140 @@ example : UbShape exBuckets ∧ NonnegC exBuckets := by
     · exact ⟨3, rfl, by decide⟩
     · exact ⟨9, rfl, by decide⟩
 
-def noTol : XR → XR → Bool := fun _ _ => false
+def shuffled : List (Bucket XR) := [⟨.fin 2, .fin 3⟩, ⟨.pinf, .fin 9⟩, ⟨.fin 1, .fin 5⟩, ⟨.fin 2, .fin 4⟩]
+
+/-- `bucketQuantile_in_bucket_partial` with sort and `coalesceBuckets` INCLUDED.  `cs = sortCoalesce buckets` is
+    the list the function works on: its bounds are strictly increasing (duplicates merged) and are exactly the
+    bounds of the input, each count is the SUM of the counts of the input buckets with that bound (`cntFor`),
+    finite and ≥ 0.  Then either the result is NaN for every quantile in
+    [0,1] (largest bound not +Inf, fewer than 2 distinct bounds, or no observations) or for every such quantile
+    the result is NaN (0/0 case only, F-C32-2) or a number within the bounds of the bucket `k` of `cs` selected
+    by the rank. -/
+theorem bucketQuantile_in_bucket (almost : XR → XR → Bool) (buckets : List (Bucket XR)) (hne : buckets ≠ [])
+    (C : NonnegC buckets) (hub : ∀ b ∈ buckets, b.ub = .pinf ∨ ∃ x, b.ub = .fin x) :
+    (StrictUb (sortCoalesce buckets) ∧
+      (∀ x : XR, (∃ c ∈ sortCoalesce buckets, c.ub = x) ↔ (∃ b ∈ buckets, b.ub = x)) ∧
+      (∀ c ∈ sortCoalesce buckets, c.count = .fin (cntFor c.ub buckets)) ∧
+      NonnegC (sortCoalesce buckets)) ∧
+    ((∀ q : Rat, 0 ≤ q → q ≤ 1 → ∃ r, bucketQuantileWith almost (.fin q) buckets = .ok r ∧ r.quantile = .nan) ∨
+     ∀ q : Rat, 0 ≤ q → q ≤ 1 → ∃ r k, bucketQuantileWith almost (.fin q) buckets = .ok r ∧
+      Sel (sortCoalesce buckets).length (cOf almost (sortCoalesce buckets))
+        (q * cOf almost (sortCoalesce buckets) ((sortCoalesce buckets).length - 1)) k ∧
+      (r.quantile = .nan ∨
+        ∃ v, r.quantile = .fin v ∧ loB (sortCoalesce buckets).length (uOf (sortCoalesce buckets)) k ≤ v ∧
+          v ≤ hiB (sortCoalesce buckets).length (uOf (sortCoalesce buckets)) k)) := by
+  obtain ⟨S, _, M, C', U⟩ := sortCoalesce_spec buckets hub C
+  have F : FinC buckets := fun b hb => by obtain ⟨c, hc, _⟩ := C b hb; exact ⟨c, hc⟩
+  refine ⟨⟨S, M, sortCoalesce_counts buckets hub F, C'⟩, ?_⟩
+  rcases bucketQuantileWith_decomp almost buckets hne with hn | ht
+  · left; intro q h0 h1; exact ⟨_, hn q h0 h1, rfl⟩
+  · rcases bucketQuantile_in_bucket_partial almost _ U C' with hnan | hq
+    · left; intro q h0 h1; exact ⟨_, ht q h0 h1, hnan q⟩
+    · right; intro q h0 h1
+      obtain ⟨k, hS, hv⟩ := hq q h0
+      exact ⟨_, k, ht q h0 h1, hS, hv⟩
+
+/-- When is the result a NUMBER?  Exactly the hypotheses that exclude the documented NaN cases (no +Inf bound,
+    fewer than two distinct bounds, no observations) and finding F-C32-2 (rank 0 in an EMPTY lowest bucket:
+    `0 < q ∨ lowest bucket non-empty`; `cOf almost cs 0` is the count of the first coalesced bucket, which the
+    fix-up never changes — `cOf_zero`).  Then for every q in [0,1] `BucketQuantile` returns a number inside the
+    bounds of the rank bucket.  Each hypothesis is needed: `bucketQuantile_nan_witness` (F-C32-2) and
+    `bucketQuantile_documented_nan_witness`. -/
+theorem bucketQuantile_number (almost : XR → XR → Bool) (buckets : List (Bucket XR))
+    (C : NonnegC buckets) (hub : ∀ b ∈ buckets, b.ub = .pinf ∨ ∃ x, b.ub = .fin x)
+    (hinf : ∃ b ∈ buckets, b.ub = .pinf) (h2 : 2 ≤ (sortCoalesce buckets).length)
+    (hobs : cOf almost (sortCoalesce buckets) ((sortCoalesce buckets).length - 1) ≠ 0)
+    (q : Rat) (h0 : 0 ≤ q) (h1 : q ≤ 1) (hpos : 0 < q ∨ 0 < cOf almost (sortCoalesce buckets) 0) :
+    ∃ r k v, bucketQuantileWith almost (.fin q) buckets = .ok r ∧
+      Sel (sortCoalesce buckets).length (cOf almost (sortCoalesce buckets))
+        (q * cOf almost (sortCoalesce buckets) ((sortCoalesce buckets).length - 1)) k ∧
+      r.quantile = .fin v ∧ loB (sortCoalesce buckets).length (uOf (sortCoalesce buckets)) k ≤ v ∧
+      v ≤ hiB (sortCoalesce buckets).length (uOf (sortCoalesce buckets)) k := by
+  obtain ⟨_, _, _, C', U⟩ := sortCoalesce_spec buckets hub C
+  obtain ⟨N, hO, hq⟩ := bqTail_main almost _ U C' h2 hobs
+  obtain ⟨k, S, e⟩ := hq q
+  have hρ : 0 ≤ q * cOf almost (sortCoalesce buckets) ((sortCoalesce buckets).length - 1) :=
+    Rat.mul_nonneg h0 (Rat.le_of_lt hO)
+  have hpos' : 0 < q * cOf almost (sortCoalesce buckets) ((sortCoalesce buckets).length - 1) ∨
+      0 < cOf almost (sortCoalesce buckets) 0 := by
+    rcases hpos with h | h
+    · exact Or.inl (Rat.mul_pos h hO)
+    · exact Or.inr h
+  obtain ⟨v, hv⟩ := valQ_fin_of N S hpos'
+  refine ⟨_, k, v, bucketQuantileWith_tail almost buckets hub hinf q h0 h1, S, by rw [e]; exact hv, ?_⟩
+  rcases valQ_bounds N hρ S with hn | ⟨v', e', b1, b2⟩
+  · rw [hv] at hn; cases hn
+  · rw [hv] at e'; cases e'; exact ⟨b1, b2⟩
+
+/-- `bucketQuantile_mono` at the tolerance the code uses (`almost.Equal(·,·,1e-12)`) -/
+theorem bucketQuantile_mono_tol (buckets : List (Bucket XR)) (hne : buckets ≠ [])
+    (C : NonnegC buckets) (hub : ∀ b ∈ buckets, b.ub = .pinf ∨ ∃ x, b.ub = .fin x)
+    (q1 q2 : Rat) (h0 : 0 ≤ q1) (h12 : q1 ≤ q2) (h1 : q2 ≤ 1) :
+    ∃ r1 r2, bucketQuantile (.fin q1) buckets = .ok r1 ∧ bucketQuantile (.fin q2) buckets = .ok r2 ∧
+      XR.leOrNaN r1.quantile r2.quantile :=
+  bucketQuantile_mono _ buckets hne C hub q1 q2 h0 h12 h1
+
+/-- monotone with a genuine `≤` between numbers (no NaN escape) under the hypotheses of `bucketQuantile_number` -/
+theorem bucketQuantile_mono_number (almost : XR → XR → Bool) (buckets : List (Bucket XR))
+    (C : NonnegC buckets) (hub : ∀ b ∈ buckets, b.ub = .pinf ∨ ∃ x, b.ub = .fin x)
+    (hinf : ∃ b ∈ buckets, b.ub = .pinf) (h2 : 2 ≤ (sortCoalesce buckets).length)
+    (hobs : cOf almost (sortCoalesce buckets) ((sortCoalesce buckets).length - 1) ≠ 0)
+    (q1 q2 : Rat) (h0 : 0 ≤ q1) (h12 : q1 ≤ q2) (h1 : q2 ≤ 1)
+    (hpos : 0 < q1 ∨ 0 < cOf almost (sortCoalesce buckets) 0) :
+    ∃ r1 r2 v1 v2, bucketQuantileWith almost (.fin q1) buckets = .ok r1 ∧ bucketQuantileWith almost (.fin q2) buckets = .ok r2 ∧
+      r1.quantile = .fin v1 ∧ r2.quantile = .fin v2 ∧ v1 ≤ v2 := by
+  have hne : buckets ≠ [] := by
+    obtain ⟨b, hb, _⟩ := hinf
+    intro e; rw [e] at hb; simp at hb
+  obtain ⟨r1, _, v1, e1, _, f1, _⟩ := bucketQuantile_number almost buckets C hub hinf h2 hobs q1 h0 (by grind) hpos
+  obtain ⟨r2, _, v2, e2, _, f2, _⟩ := bucketQuantile_number almost buckets C hub hinf h2 hobs q2 (by grind) h1
+    (by rcases hpos with h | h
+        · exact Or.inl (by grind)
+        · exact Or.inr h)
+  obtain ⟨r1', r2', e1', e2', hle⟩ := bucketQuantile_mono almost buckets hne C hub q1 q2 h0 h12 h1
+  rw [e1] at e1'; rw [e2] at e2'
+  cases e1'; cases e2'
+  refine ⟨r1, r2, v1, v2, e1, e2, f1, f2, ?_⟩
+  rw [f1, f2] at hle
+  rcases hle with h | h | h
+  · cases h
+  · cases h
+  · simpa using h
+/-- the documented NaN cases, one per remaining hypothesis of `bucketQuantile_number`: largest bound not +Inf;
+    a single distinct bound; no observations -/
+theorem bucketQuantile_documented_nan_witness :
+    (match bucketQuantileWith noTol (.fin (1/2)) [⟨.fin 1, .fin 5⟩, ⟨.fin 2, .fin 9⟩] with
+      | .ok r => r.quantile | .error _ => .fin 0) = .nan ∧
+    (match bucketQuantileWith noTol (.fin (1/2)) [⟨.pinf, .fin 5⟩, ⟨.pinf, .fin 9⟩] with
+      | .ok r => r.quantile | .error _ => .fin 0) = .nan ∧
+    (match bucketQuantileWith noTol (.fin (1/2)) [⟨.fin 1, .fin 0⟩, ⟨.pinf, .fin 0⟩] with
+      | .ok r => r.quantile | .error _ => .fin 0) = .nan := by
+  refine ⟨?_, ?_, ?_⟩ <;> decide +kernel
+
+/-- `shuffled` (below) satisfies the hypotheses of `bucketQuantile_number` for every q in [0,1] -/
+example : (∃ b ∈ shuffled, b.ub = .pinf) ∧ 2 ≤ (sortCoalesce shuffled).length ∧
+    cOf noTol (sortCoalesce shuffled) ((sortCoalesce shuffled).length - 1) ≠ 0 ∧ 0 < cOf noTol (sortCoalesce shuffled) 0 := by
+  refine ⟨⟨⟨.pinf, .fin 9⟩, by simp [shuffled], rfl⟩, by decide +kernel, by decide +kernel, by decide +kernel⟩
+
+/-- a shuffled input with a duplicate bound and non-monotonic counts satisfies the hypotheses -/
+example : shuffled ≠ [] ∧ NonnegC shuffled ∧ (∀ b ∈ shuffled, b.ub = .pinf ∨ ∃ x, b.ub = .fin x) ∧
+    (sortCoalesce shuffled).map (fun b => (b.ub, b.count)) = [(.fin 1, .fin 5), (.fin 2, .fin 7), (.pinf, .fin 9)] := by
+  refine ⟨by simp [shuffled], ?_, ?_, by decide +kernel⟩
+  · intro b hb
+    simp [shuffled] at hb
+    rcases hb with rfl | rfl | rfl | rfl
+    · exact ⟨3, rfl, by decide⟩
+    · exact ⟨9, rfl, by decide⟩
+    · exact ⟨5, rfl, by decide⟩
+    · exact ⟨4, rfl, by decide⟩
+  · intro b hb
+    simp [shuffled] at hb
+    rcases hb with rfl | rfl | rfl | rfl
+    · exact Or.inr ⟨2, rfl⟩
+    · exact Or.inl rfl
+    · exact Or.inr ⟨1, rfl⟩
+    · exact Or.inr ⟨2, rfl⟩
+
 def emptyFirst : List (Bucket XR) := [⟨.fin 1, .fin 0⟩, ⟨.fin 2, .fin 5⟩, ⟨.pinf, .fin 5⟩]
 def negCounts : List (Bucket XR) := [⟨.fin 1, .fin (-5)⟩, ⟨.fin 2, .fin (-1)⟩, ⟨.fin 3, .fin (-1)⟩, ⟨.pinf, .fin (-1)⟩]
 
@@ -151,20 +320,61 @@ def evalHQ (interp : XR → XR → XR → XR) : HQRes XR → XR
   | .expo l u f => interp l u f
 
 /-- consistent native histogram: finite counts ≥ 0 that add up to Count > 0, ascending disjoint buckets,
-    the reverse iterator is the reverse of the forward one, Sum is not NaN -/
+    the reverse iterator is the reverse of the forward one.  Sum may be anything, NaN included: with the repair of
+    F-C32-1 in /repo (`repoFixedC32F1 = true`) the theorems no longer need `Sum ≠ NaN`; for the code as found they
+    do (`NanSumOk false`, `histQuantile_nan_sum_witness`). -/
 def ConsistentHist (h : NHist XR) : Prop :=
-  h.rev = h.fwd.reverse ∧ h.sum ≠ .nan ∧
+  h.rev = h.fwd.reverse ∧
   (∃ N, h.count = .fin N ∧ 0 < N ∧ sumCounts (.fin 0) h.fwd = .fin N) ∧
   (∀ b ∈ h.fwd, ∃ l u c, b.lower = .fin l ∧ b.upper = .fin u ∧ b.count = .fin c ∧ l ≤ u ∧ 0 ≤ c) ∧
   h.fwd.Pairwise (fun a b => XR.le a.upper b.lower = true)
 
-/-- NOT PROVED YET (covered by the judge on Go's outputs only): native quantiles are monotone in q. -/
+theorem ConsistentHist.rhist {h : NHist XR} (C : ConsistentHist h) :
+    ∃ L N, RHist h L N ∧ L.Pairwise (fun a b => a.u ≤ b.l) :=
+  rhist_of h C.1 C.2.1 C.2.2.1 C.2.2.2
+
+/-- what the variant `fixed` of the code needs about Sum: nothing when F-C32-1 is repaired, `Sum ≠ NaN` otherwise -/
+def NanSumOk (fixed : Bool) (h : NHist XR) : Prop := fixed = true ∨ h.sum ≠ .nan
+
+/-- /repo is the repaired variant, so `NanSumOk` holds for every histogram -/
+theorem nanSumOk_repo (h : NHist XR) : NanSumOk repoFixedC32F1 h := Or.inl rfl
+
+theorem evalHQ_eq_evalR (interp : XR → XR → XR → XR) (r : HQRes XR) : evalHQ interp r = evalR interp r := by
+  cases r <;> rfl
+
+/-- the statement as first written (NaN admitted) -/
 def histQuantile_mono_full : Prop :=
   ∀ (interp : XR → XR → XR → XR) (h : NHist XR), GoodInterp interp → ConsistentHist h →
     ∀ q1 q2 : Rat, 0 ≤ q1 → q1 ≤ q2 → q2 ≤ 1 →
       XR.leOrNaN (evalHQ interp (histogramQuantile (.fin q1) h)) (evalHQ interp (histogramQuantile (.fin q2) h))
 
-/-- NOT PROVED YET: the native quantile lies within the (adjusted) bounds of a bucket of the histogram. -/
+/-- Native quantiles never decrease with q — and are never NaN — for BOTH variants of the code (`fixed = false`:
+    as found, needs Sum ≠ NaN, F-C32-1; `fixed = true`: repaired, any Sum): for every consistent histogram (all
+    bounds finite: F-C32-3) and every monotone in-bucket interpolant, at the bucket-iterator level, ACROSS the
+    switch from forward to reverse iteration at q = 1/2 (no switch when Sum is NaN). -/
+theorem histQuantileWith_mono (fixed : Bool) (interp : XR → XR → XR → XR) (h : NHist XR) (G : GoodInterp interp)
+    (C : ConsistentHist h) (hs : NanSumOk fixed h) (q1 q2 : Rat) (h0 : 0 ≤ q1) (h12 : q1 ≤ q2) (h1 : q2 ≤ 1) :
+    ∃ v1 v2, evalHQ interp (histogramQuantileWith fixed (.fin q1) h) = .fin v1 ∧
+      evalHQ interp (histogramQuantileWith fixed (.fin q2) h) = .fin v2 ∧ v1 ≤ v2 := by
+  obtain ⟨L, N, R, PW⟩ := C.rhist
+  simp only [evalHQ_eq_evalR]
+  exact hq_mono_core interp G fixed R hs PW q1 q2 h0 h12 h1
+
+/-- …and for the code the check is tied to (/repo with F-C32-1 repaired): NO hypothesis on Sum. -/
+theorem histQuantile_mono (interp : XR → XR → XR → XR) (h : NHist XR) (G : GoodInterp interp) (C : ConsistentHist h)
+    (q1 q2 : Rat) (h0 : 0 ≤ q1) (h12 : q1 ≤ q2) (h1 : q2 ≤ 1) :
+    ∃ v1 v2, evalHQ interp (histogramQuantile (.fin q1) h) = .fin v1 ∧
+      evalHQ interp (histogramQuantile (.fin q2) h) = .fin v2 ∧ v1 ≤ v2 :=
+  histQuantileWith_mono repoFixedC32F1 interp h G C (nanSumOk_repo h) q1 q2 h0 h12 h1
+
+theorem histQuantile_mono_full_holds : histQuantile_mono_full := by
+  intro interp h G C q1 q2 h0 h12 h1
+  obtain ⟨v1, v2, e1, e2, hle⟩ := histQuantile_mono interp h G C q1 q2 h0 h12 h1
+  right; right
+  rw [e1, e2, XR.le_fin]
+  simpa using hle
+
+/-- the statement as first written (some bucket of the histogram) -/
 def histQuantile_in_rank_bucket_full : Prop :=
   ∀ (interp : XR → XR → XR → XR) (h : NHist XR), GoodInterp interp → ConsistentHist h → h.custom = false →
     ∀ q : Rat, 0 ≤ q → q ≤ 1 →
@@ -172,7 +382,158 @@ def histQuantile_in_rank_bucket_full : Prop :=
         XR.le (if XR.lt b.lower (.fin 0) && XR.lt (.fin 0) b.upper && h.nNeg = 0 && h.nPos > 0 then .fin 0 else b.lower) (.fin v) = true ∧
         XR.le (.fin v) (if XR.lt b.lower (.fin 0) && XR.lt (.fin 0) b.upper && h.nPos = 0 && h.nNeg > 0 then .fin 0 else b.upper) = true
 
-/-- NOT PROVED YET: fraction ∈ [0,1] and monotone under interval nesting (`fb` = in-bucket fraction in [0,1], monotone). -/
+/-- The native quantile lies within the (adjusted) bounds of THE RANK BUCKET: the histogram's buckets split as
+    `pre ++ b :: rem` where `b` is non-empty and the cumulative count `S` of `pre` satisfies
+    `S ≤ q·Count ≤ S + b.count`; the result is a number between `b`'s bounds (the zero bucket cut at 0 when the
+    histogram has no negative resp. no positive buckets).  Custom-bucket histograms included. -/
+theorem histQuantile_in_rank_bucket (interp : XR → XR → XR → XR) (h : NHist XR) (G : GoodInterp interp)
+    (C : ConsistentHist h) (q : Rat) (h0 : 0 ≤ q) (h1 : q ≤ 1) :
+    ∃ pre b rem S c N, h.fwd = pre ++ b :: rem ∧ h.count = .fin N ∧ sumCounts (.fin 0) pre = .fin S ∧ b.count = .fin c ∧
+      0 < c ∧ S ≤ q * N ∧ q * N ≤ S + c ∧
+      ∃ v, evalHQ interp (histogramQuantile (.fin q) h) = .fin v ∧
+        XR.le (if !h.custom && XR.lt b.lower (.fin 0) && XR.lt (.fin 0) b.upper && h.nNeg = 0 && h.nPos > 0 then .fin 0 else b.lower) (.fin v) = true ∧
+        XR.le (.fin v) (if !h.custom && XR.lt b.lower (.fin 0) && XR.lt (.fin 0) b.upper && h.nPos = 0 && h.nNeg > 0 then .fin 0 else b.upper) = true := by
+  obtain ⟨L, N, R, _⟩ := C.rhist
+  show ∃ pre b rem S c N, h.fwd = pre ++ b :: rem ∧ h.count = .fin N ∧ sumCounts (.fin 0) pre = .fin S ∧ b.count = .fin c ∧
+      0 < c ∧ S ≤ q * N ∧ q * N ≤ S + c ∧
+      ∃ v, evalHQ interp (histogramQuantileWith repoFixedC32F1 (.fin q) h) = .fin v ∧ _ ∧ _
+  obtain ⟨pre, b, rem, P, v, ev, lo, hi⟩ := hq_in_bucket_core interp G repoFixedC32F1 R (nanSumOk_repo h) q h0 h1
+  refine ⟨pre.map RB.toN, b.toN, rem.map RB.toN, 0 + total pre, b.c, N, ?_, R.count, sumCounts_map pre 0, rfl, P.cpos,
+    by have := P.lo; grind, by have := P.hi; grind, v, by rw [evalHQ_eq_evalR]; exact ev, ?_, ?_⟩
+  · rw [R.fwd, P.split]; simp
+  · unfold adjLo at lo
+    simp only [RB.toN, XR.lt_fin]
+    split at lo <;> rename_i hc
+    · have : (!h.custom && decide (b.l < 0) && decide (0 < b.u) && decide (h.nNeg = 0) && decide (h.nPos > 0)) = true := by
+        simpa [Bool.and_assoc] using hc
+      simp only [this, ↓reduceIte, XR.le_fin]; simpa using lo
+    · have : ¬ (!h.custom && decide (b.l < 0) && decide (0 < b.u) && decide (h.nNeg = 0) && decide (h.nPos > 0)) = true := by
+        simpa [Bool.and_assoc] using hc
+      simp only [this, ↓reduceIte, XR.le_fin]; simpa using lo
+  · unfold adjHi at hi
+    simp only [RB.toN, XR.lt_fin]
+    by_cases hc : (!h.custom && decide (b.l < 0) && decide (0 < b.u) && decide (h.nPos = 0) && decide (h.nNeg > 0)) = true
+    · have hc' : (!h.custom && decide (b.l < 0) && decide (0 < b.u) && !(decide (h.nNeg = 0) && decide (h.nPos > 0)) &&
+          (decide (h.nPos = 0) && decide (h.nNeg > 0))) = true := by
+        simp only [Bool.and_eq_true, decide_eq_true_eq, Bool.not_eq_true', Bool.and_eq_false_iff, decide_eq_false_iff_not] at hc ⊢
+        refine ⟨⟨⟨⟨hc.1.1.1.1, hc.1.1.1.2⟩, hc.1.1.2⟩, ?_⟩, hc.1.2, hc.2⟩
+        right; omega
+      rw [if_pos hc'] at hi
+      simp only [hc, ↓reduceIte, XR.le_fin]; simpa using hi
+    · have hc' : ¬ (!h.custom && decide (b.l < 0) && decide (0 < b.u) && !(decide (h.nNeg = 0) && decide (h.nPos > 0)) &&
+          (decide (h.nPos = 0) && decide (h.nNeg > 0))) = true := by
+        intro hh
+        apply hc
+        simp only [Bool.and_eq_true, decide_eq_true_eq, Bool.not_eq_true', Bool.and_eq_false_iff, decide_eq_false_iff_not] at hh ⊢
+        exact ⟨⟨⟨hh.1.1.1, hh.1.1.2⟩, hh.2.1⟩, hh.2.2⟩
+      rw [if_neg hc'] at hi
+      simp only [hc, ↓reduceIte, XR.le_fin]; simpa using hi
+
+theorem histQuantile_in_rank_bucket_full_holds : histQuantile_in_rank_bucket_full := by
+  intro interp h G C hcu q h0 h1
+  obtain ⟨pre, b, rem, S, c, N, e, _, _, _, _, _, _, v, ev, lo, hi⟩ := histQuantile_in_rank_bucket interp h G C q h0 h1
+  refine ⟨b, by rw [e]; simp, v, ev, ?_, ?_⟩
+  · simpa [hcu] using lo
+  · simpa [hcu] using hi
+
+/-- the linear interpolant is a `GoodInterp` -/
+def linInterp : XR → XR → XR → XR := fun l u f => XR.add l (XR.mul (XR.sub u l) f)
+
+example : GoodInterp linInterp := by
+  intro l u f1 f2 hlu h0 h12 h1
+  refine ⟨_, _, rfl, rfl, (interp_bounds hlu h0 (by grind)).1, interp_mono hlu h12, (interp_bounds hlu (by grind) h1).2⟩
+
+/-- a consistent histogram: negative bucket, zero bucket, an empty bucket and two positive buckets -/
+def exHist : NHist XR :=
+  { custom := false, count := .fin 6, sum := .fin 7, nNeg := 1, nPos := 3,
+    fwd := [⟨.fin (-2), .fin (-1), .fin 1⟩, ⟨.fin (-1/2), .fin (1/2), .fin 2⟩, ⟨.fin 1, .fin 2, .fin 0⟩, ⟨.fin 2, .fin 4, .fin 3⟩],
+    rev := [⟨.fin 2, .fin 4, .fin 3⟩, ⟨.fin 1, .fin 2, .fin 0⟩, ⟨.fin (-1/2), .fin (1/2), .fin 2⟩, ⟨.fin (-2), .fin (-1), .fin 1⟩] }
+
+example : ConsistentHist exHist := by
+  refine ⟨rfl, ⟨6, rfl, by decide, by decide +kernel⟩, ?_, ?_⟩
+  · intro b hb
+    simp [exHist] at hb
+    rcases hb with rfl | rfl | rfl | rfl
+    · exact ⟨_, _, _, rfl, rfl, rfl, by decide +kernel, by decide +kernel⟩
+    · exact ⟨_, _, _, rfl, rfl, rfl, by decide +kernel, by decide +kernel⟩
+    · exact ⟨_, _, _, rfl, rfl, rfl, by decide +kernel, by decide +kernel⟩
+    · exact ⟨_, _, _, rfl, rfl, rfl, by decide +kernel, by decide +kernel⟩
+  · simp only [exHist, List.pairwise_cons, List.mem_cons, List.not_mem_nil, or_false, false_imp_iff, forall_eq_or_imp,
+      forall_eq, List.Pairwise.nil, and_true, implies_true]
+    decide +kernel
+
+/-- Finding F-C32-1 at model level — for the code AS FOUND (`fixed = false`) the hypothesis `Sum ≠ NaN` of
+    `NanSumOk false` is needed: on this consistent histogram with finite bounds and Sum = NaN the NaN-detection loop
+    overwrites `bucket` with the last bucket of the iteration; q = 1/4 ↦ 3 but q = 5/8 ↦ 5/2.  The repaired code is
+    monotone on it (`histQuantile_mono`). -/
+def nanSumFinHist : NHist XR :=
+  { custom := true, count := .fin 4, sum := .nan, nNeg := 0, nPos := 3,
+    fwd := [⟨.fin 0, .fin 1, .fin 1⟩, ⟨.fin 1, .fin 2, .fin 1⟩, ⟨.fin 2, .fin 4, .fin 2⟩],
+    rev := [⟨.fin 2, .fin 4, .fin 2⟩, ⟨.fin 1, .fin 2, .fin 1⟩, ⟨.fin 0, .fin 1, .fin 1⟩] }
+
+theorem histQuantile_nan_sum_witness :
+    ConsistentHist nanSumFinHist ∧
+    evalHQ linInterp (histogramQuantileWith false (.fin (1/4)) nanSumFinHist) = .fin 3 ∧
+    evalHQ linInterp (histogramQuantileWith false (.fin (5/8)) nanSumFinHist) = .fin (5/2) := by
+  refine ⟨⟨rfl, ⟨4, rfl, by decide, by decide +kernel⟩, ?_, ?_⟩, by decide +kernel, by decide +kernel⟩
+  · intro b hb
+    simp [nanSumFinHist] at hb
+    rcases hb with rfl | rfl | rfl
+    · exact ⟨_, _, _, rfl, rfl, rfl, by decide +kernel, by decide +kernel⟩
+    · exact ⟨_, _, _, rfl, rfl, rfl, by decide +kernel, by decide +kernel⟩
+    · exact ⟨_, _, _, rfl, rfl, rfl, by decide +kernel, by decide +kernel⟩
+  · simp only [nanSumFinHist, List.pairwise_cons, List.mem_cons, List.not_mem_nil, or_false, false_imp_iff, forall_eq_or_imp,
+      forall_eq, List.Pairwise.nil, and_true, implies_true]
+    decide +kernel
+
+/-- Finding F-C32-3 at model level — the hypothesis "all bounds finite" is needed: a custom-bucket histogram
+    whose only bucket is (-Inf, +Inf] gives NaN for q = 0 and +Inf for q = 1. -/
+def noFiniteBoundHist : NHist XR :=
+  { custom := true, count := .fin 1, sum := .fin 1, nNeg := 0, nPos := 1,
+    fwd := [⟨.ninf, .pinf, .fin 1⟩], rev := [⟨.ninf, .pinf, .fin 1⟩] }
+
+theorem histQuantile_no_finite_bound_witness :
+    evalHQ linInterp (histogramQuantile (.fin 0) noFiniteBoundHist) = .nan ∧
+    evalHQ linInterp (histogramQuantile (.fin 1) noFiniteBoundHist) = .pinf := by
+  constructor <;> decide +kernel
+
+/-- The hypothesis "Count = sum of the bucket counts" of `ConsistentHist` is needed as well: when Count exceeds
+    what the buckets hold and the rank lies beyond them, the code falls back to `bucket.Upper` of the LAST ITERATED
+    bucket — the highest bucket under forward iteration (q < 1/2) but the LOWEST one under reverse iteration
+    (q ≥ 1/2), although the comment in quantile.go says "upper bound of the highest explicit bucket":
+    q = 2/5 ↦ 2, q = 1/2 ↦ 1. -/
+def inconsistentCountHist : NHist XR :=
+  { custom := true, count := .fin 10, sum := .fin 3, nNeg := 0, nPos := 2,
+    fwd := [⟨.fin 0, .fin 1, .fin 1⟩, ⟨.fin 1, .fin 2, .fin 1⟩],
+    rev := [⟨.fin 1, .fin 2, .fin 1⟩, ⟨.fin 0, .fin 1, .fin 1⟩] }
+
+theorem histQuantile_inconsistent_count_witness :
+    evalHQ linInterp (histogramQuantile (.fin (2/5)) inconsistentCountHist) = .fin 2 ∧
+    evalHQ linInterp (histogramQuantile (.fin (1/2)) inconsistentCountHist) = .fin 1 := by
+  constructor <;> decide +kernel
+
+/-- quantiles outside [0,1] and NaN: -Inf below 0, +Inf above 1, NaN for NaN — classic and native alike,
+    whatever the buckets are -/
+theorem quantile_special_cases (almost : XR → XR → Bool) (buckets : List (Bucket XR)) (h : NHist XR) (q : Rat) :
+    bucketQuantileWith almost .nan buckets = .ok ⟨.nan, zeroInfo⟩ ∧
+    (q < 0 → bucketQuantileWith almost (.fin q) buckets = .ok ⟨.ninf, zeroInfo⟩) ∧
+    (1 < q → bucketQuantileWith almost (.fin q) buckets = .ok ⟨.pinf, zeroInfo⟩) ∧
+    (q < 0 → evalHQ linInterp (histogramQuantile (.fin q) h) = .ninf) ∧
+    (1 < q → evalHQ linInterp (histogramQuantile (.fin q) h) = .pinf) ∧
+    evalHQ linInterp (histogramQuantile .nan h) = .nan := by
+  refine ⟨by simp [bucketQuantileWith, XR.isNaN], ?_, ?_, ?_, ?_, ?_⟩
+  · intro hq; simp [bucketQuantileWith, XR.isNaN, hq]
+  · intro hq
+    have : ¬ q < 0 := by grind
+    simp [bucketQuantileWith, XR.isNaN, hq, this]
+  · intro hq; simp [histogramQuantile, histogramQuantileWith, hq, evalHQ]
+  · intro hq
+    have : ¬ q < 0 := by grind
+    simp [histogramQuantile, histogramQuantileWith, hq, this, evalHQ]
+  · simp [histogramQuantile, histogramQuantileWith, XR.lt, XR.isNaN, evalHQ]
+
+/-- the statement: fraction ∈ [0,1] and monotone under interval nesting (`fb` = exponential in-bucket fraction,
+    any function with values in [0,1] that is monotone in `v`) -/
 def fraction_in_unit_and_mono_full : Prop :=
   ∀ (fb : XR → XR → XR → XR) (h : NHist XR), ConsistentHist h →
     (∀ l u v1 v2 : Rat, l < v1 → v1 ≤ v2 → v2 < u → ∃ f1 f2, fb (.fin l) (.fin u) (.fin v1) = .fin f1 ∧
@@ -181,6 +542,111 @@ def fraction_in_unit_and_mono_full : Prop :=
       ∃ f1 f2, histogramFraction fb (.fin lo1) (.fin up1) h = .fin f1 ∧ histogramFraction fb (.fin lo2) (.fin up2) h = .fin f2 ∧
         0 ≤ f1 ∧ f1 ≤ f2 ∧ f2 ≤ 1
 
+/-- `HistogramFraction` of a consistent native histogram is a number in [0,1] and grows when the interval grows.
+    Proof: the loop ranks the two bounds independently (`hfLoop_split`, for every float type), each rank is the
+    monotone cumulative count `rankT` with values in [0, Count] (`rankT_mono`), and the result is
+    `(rank(up) - rank(lo)) / Count` (`hf_val`). -/
+theorem fraction_in_unit_and_mono : fraction_in_unit_and_mono_full := by
+  intro fb h C FBm lo1 up1 lo2 up2 h1 h2 h3
+  obtain ⟨L, N, R, _⟩ := C.rhist
+  exact fraction_core fb R FBm lo1 up1 lo2 up2 h1 h2 h3
+
+/-- The same with bounds in the EXTENDED reals — `histogram_fraction(-Inf, x, …)`, `(x, +Inf, …)`, `(-Inf, +Inf, …)`:
+    for all non-NaN bounds `lo2 ≤ lo1 ≤ up1 ≤ up2` (order of `XR.le`) both fractions are numbers in [0,1] and the
+    fraction of the larger interval is at least the fraction of the smaller one. -/
+theorem fraction_in_unit_and_mono_ext (fb : XR → XR → XR → XR) (h : NHist XR) (C : ConsistentHist h)
+    (FBm : ∀ l u v1 v2 : Rat, l < v1 → v1 ≤ v2 → v2 < u → ∃ f1 f2, fb (.fin l) (.fin u) (.fin v1) = .fin f1 ∧
+        fb (.fin l) (.fin u) (.fin v2) = .fin f2 ∧ 0 ≤ f1 ∧ f1 ≤ f2 ∧ f2 ≤ 1)
+    (lo1 up1 lo2 up2 : XR) (n1 : lo1 ≠ .nan) (n2 : up1 ≠ .nan) (n3 : lo2 ≠ .nan) (n4 : up2 ≠ .nan)
+    (h1 : XR.le lo2 lo1 = true) (h2 : XR.le lo1 up1 = true) (h3 : XR.le up1 up2 = true) :
+    ∃ f1 f2, histogramFraction fb lo1 up1 h = .fin f1 ∧ histogramFraction fb lo2 up2 h = .fin f2 ∧
+      0 ≤ f1 ∧ f1 ≤ f2 ∧ f2 ≤ 1 := by
+  obtain ⟨L, N, R, _⟩ := C.rhist
+  exact fraction_coreX fb R FBm lo1 up1 lo2 up2 n1 n2 n3 n4 h1 h2 h3
+
+example : XR.le .ninf (.fin (-1)) = true ∧ XR.le (.fin (-1)) (.fin 3) = true ∧ XR.le (.fin 3) .pinf = true := by decide +kernel
+
+/-- the linear in-bucket fraction satisfies the hypothesis on `fb`; `exHist` (above) is a consistent histogram -/
+example : ∀ l u v1 v2 : Rat, l < v1 → v1 ≤ v2 → v2 < u →
+    ∃ f1 f2, (fun l u v => XR.div (XR.sub v l) (XR.sub u l)) (.fin l) (.fin u) (.fin v1) = .fin f1 ∧
+      (fun l u v => XR.div (XR.sub v l) (XR.sub u l)) (.fin l) (.fin u) (.fin v2) = .fin f2 ∧ 0 ≤ f1 ∧ f1 ≤ f2 ∧ f2 ≤ 1 := by
+  intro l u v1 v2 a b c
+  have hw : 0 < u - l := by grind
+  have hne : u - l ≠ 0 := by grind
+  exact ⟨(v1 - l) / (u - l), (v2 - l) / (u - l), by simp [XR.div_fin _ _ hne], by simp [XR.div_fin _ _ hne],
+    rat_div_nonneg (by grind) hw, rat_div_mono (by grind) hw, rat_div_le_one (by grind) hw⟩
+
+/-! ## the two native functions describe the same distribution -/
+
+/-- `interp` (quantile side) and `fb` (fraction side) are inverse to each other inside a bucket: abstraction of the
+    exp2/log2 pair of promql/quantile.go and `Bucket.FractionBelow` -/
+def InverseInterp (interp fb : XR → XR → XR → XR) : Prop :=
+  ∀ l u f : Rat, l < u → 0 ≤ f → f ≤ 1 → ∃ v, interp (.fin l) (.fin u) (.fin f) = .fin v ∧
+    (f = 0 → v = l) ∧ (f = 1 → v = u) ∧ (0 < f → f < 1 → l < v ∧ v < u ∧ fb (.fin l) (.fin u) (.fin v) = .fin f)
+
+/-- both functions see the same bucket bounds: positive width, and a bucket whose closed range contains 0 belongs
+    to a non-custom histogram and has 0 in its interior (the "zero bucket" cut of both functions then coincides) -/
+def AgreeingBounds (h : NHist XR) : Prop :=
+  ∀ b ∈ h.fwd, XR.lt b.lower b.upper = true ∧
+    (XR.le b.lower (.fin 0) = true → XR.le (.fin 0) b.upper = true →
+      h.custom = false ∧ XR.lt b.lower (.fin 0) = true ∧ XR.lt (.fin 0) b.upper = true)
+
+/-- `histogram_fraction(-Inf, histogram_quantile(q, h), h) = q` for every q in [0,1]: the quantile returned for `q` is
+    a value below which exactly the fraction `q` of the observations lies, as `HistogramFraction` counts them —
+    EXACTLY, in rational arithmetic, including ranks on bucket boundaries and across the forward/reverse switch.
+    Hypotheses: consistent histogram, inverse in-bucket interpolants, `AgreeingBounds`.  The last one cannot be
+    dropped: `fraction_quantile_custom_zero_witness` (real-code behaviour for custom buckets that contain 0). -/
+theorem fraction_of_quantile (interp fb : XR → XR → XR → XR) (h : NHist XR) (C : ConsistentHist h)
+    (FBm : ∀ l u v1 v2 : Rat, l < v1 → v1 ≤ v2 → v2 < u → ∃ f1 f2, fb (.fin l) (.fin u) (.fin v1) = .fin f1 ∧
+        fb (.fin l) (.fin u) (.fin v2) = .fin f2 ∧ 0 ≤ f1 ∧ f1 ≤ f2 ∧ f2 ≤ 1)
+    (II : InverseInterp interp fb) (A : AgreeingBounds h) (q : Rat) (h0 : 0 ≤ q) (h1 : q ≤ 1) :
+    ∃ v, evalHQ interp (histogramQuantile (.fin q) h) = .fin v ∧ histogramFraction fb .ninf (.fin v) h = .fin q := by
+  obtain ⟨L, N, R, PW⟩ := C.rhist
+  have AL : ∀ b ∈ L, aLo h b < aHi h b ∧ adjLo h b = aLo h b ∧ adjHi h b = aHi h b := by
+    intro b hb
+    have hm : b.toN ∈ h.fwd := by rw [R.fwd]; exact List.mem_map_of_mem hb
+    obtain ⟨a1, a2⟩ := A b.toN hm
+    apply agree_of
+    simp only [RB.toN, XR.lt_fin, XR.le_fin, decide_eq_true_eq] at a1 a2
+    exact ⟨a1, a2⟩
+  simp only [evalHQ_eq_evalR]
+  show ∃ v, evalR interp (histogramQuantileWith repoFixedC32F1 (.fin q) h) = .fin v ∧ _
+  exact fraction_of_quantile_core interp fb repoFixedC32F1 R (nanSumOk_repo h) PW FBm II (fun b hb => (AL b hb).1) (fun b hb => (AL b hb).2) q h0 h1
+
+/-- linear interpolation and the linear fraction are inverse to each other; `exHist` has agreeing bounds -/
+example : InverseInterp linInterp (fun l u v => XR.div (XR.sub v l) (XR.sub u l)) := by
+  intro l u f hlu h0 h1
+  have hw : u - l ≠ 0 := by grind
+  refine ⟨l + (u - l) * f, rfl, ?_, ?_, ?_⟩
+  · intro e; rw [e]; grind
+  · intro e; rw [e]; grind
+  · intro p1 p2
+    have m1 : 0 < (u - l) * f := Rat.mul_pos (by grind) p1
+    have m2 : (u - l) * f < (u - l) * 1 := Rat.mul_lt_mul_of_pos_left p2 (by grind)
+    refine ⟨by grind, by grind, ?_⟩
+    have : l + (u - l) * f - l = (u - l) * f := by grind
+    simp only [XR.sub_fin, XR.div_fin _ _ hw, this, rat_mul_div_cancel hw]
+
+example : AgreeingBounds exHist := by
+  intro b hb
+  simp [exHist] at hb
+  rcases hb with rfl | rfl | rfl | rfl <;> decide +kernel
+
+/-- NEW FINDING at model level (reproduced against promql.HistogramFraction): a CUSTOM-bucket histogram whose bucket
+    (-5, 5] contains 0.  `HistogramFraction` applies the exponential "zero bucket" cut (`b.Lower = 0` because there
+    are no negative buckets) to it — `HistogramQuantile` guards the same cut with `!h.UsesCustomBuckets()` — so all
+    observations of the bucket are counted in [0, 5]: histogram_quantile(1/4) = -5/2, but
+    histogram_fraction(-Inf, -5/2) = 0 instead of 1/4 and histogram_fraction(-5, 0) = 0 instead of 1/2. -/
+def customZeroHist : NHist XR :=
+  { custom := true, count := .fin 4, sum := .fin (-12), nNeg := 0, nPos := 3,
+    fwd := [⟨.fin (-10), .fin (-5), .fin 0⟩, ⟨.fin (-5), .fin 5, .fin 4⟩, ⟨.fin 5, .fin 10, .fin 0⟩],
+    rev := [⟨.fin 5, .fin 10, .fin 0⟩, ⟨.fin (-5), .fin 5, .fin 4⟩, ⟨.fin (-10), .fin (-5), .fin 0⟩] }
+
+theorem fraction_quantile_custom_zero_witness :
+    evalHQ linInterp (histogramQuantile (.fin (1/4)) customZeroHist) = .fin (-5/2) ∧
+    histogramFraction (fun l u v => XR.div (XR.sub v l) (XR.sub u l)) .ninf (.fin (-5/2)) customZeroHist = .fin 0 ∧
+    histogramFraction (fun l u v => XR.div (XR.sub v l) (XR.sub u l)) (.fin (-5)) (.fin 0) customZeroHist = .fin 0 := by
+  refine ⟨?_, ?_, ?_⟩ <;> decide +kernel
 /-! ### Finding F-C32-1 (NaN-sum histograms) and its repair
 
 `repoFixedC32F1` (PromModel/Promql/Quantile.lean) says which variant /repo currently is; the theorems
